@@ -73,6 +73,7 @@ type wbatch struct {
 type state struct {
 	edges map[string]*medge
 	nodes map[string]model.PointSet
+	root  string
 }
 type medge struct {
 	parent, id, typ string
@@ -80,7 +81,7 @@ type medge struct {
 }
 
 func (s *state) clone() *state {
-	c := &state{edges: map[string]*medge{}, nodes: map[string]model.PointSet{}}
+	c := &state{edges: map[string]*medge{}, nodes: map[string]model.PointSet{}, root: s.root}
 	for k, e := range s.edges {
 		ne := &medge{e.parent, e.id, e.typ, model.PointSet{}}
 		for i, p := range e.points {
@@ -110,7 +111,7 @@ func toFix(p wp) fix.P {
 
 func genHistory(t *rapid.T) *history {
 	h := &history{}
-	cur := &state{edges: map[string]*medge{}, nodes: map[string]model.PointSet{}}
+	cur := &state{edges: map[string]*medge{}, nodes: map[string]model.PointSet{}, root: "inst"}
 	clock := int64(1800000000) * 1e9
 	tick := func() int64 { clock += 1000; return clock }
 	placed := []string{"inst"}
@@ -131,6 +132,9 @@ func genHistory(t *rapid.T) *history {
 			if e == nil {
 				e = &medge{parent: parts[2], id: parts[1], points: model.PointSet{}}
 				cur.edges[k] = e
+				if parts[2] == "root" {
+					cur.root = parts[1] // a new edge under "root" replaces the instance root
+				}
 			}
 			for _, p := range b.Points {
 				if p.Type == data.PointTypeNodeType {
@@ -160,9 +164,16 @@ func genHistory(t *rapid.T) *history {
 		return b
 	}
 	nNew := 0
+	wantSwap := rapid.Bool().Draw(t, "historyWithRootSwap")
 	n := rapid.IntRange(5, 25).Draw(t, "nbatches")
 	for len(h.batches) < n {
-		switch rapid.SampledFrom([]string{"create", "create", "nodePoints", "nodePoints", "edgePoints", "mirror", "delete"}).Draw(t, "op") {
+		switch rapid.SampledFrom([]string{"create", "create", "nodePoints", "nodePoints", "edgePoints", "mirror", "delete", "rootSwap"}).Draw(t, "op") {
+		case "rootSwap":
+			// the documented import-at-root path: edge row, meta.root_id and hashes change together
+			if cur.root != "inst" || !wantSwap {
+				continue
+			}
+			apply(newEdge("r1", "root", "device"), "new root r1")
 		case "create":
 			if nNew >= 8 {
 				continue
@@ -186,8 +197,10 @@ func genHistory(t *rapid.T) *history {
 			apply(nodePts(id), "points of "+id)
 		case "edgePoints", "delete":
 			var keys []string
-			for k := range cur.edges {
-				keys = append(keys, k)
+			for k, e := range cur.edges {
+				if e.parent != "root" { // a tombstone aimed at a root is refused by design (C05)
+					keys = append(keys, k)
+				}
 			}
 			if len(keys) == 0 {
 				continue
@@ -290,12 +303,9 @@ func verify(h *history, dir string, r runResult) error {
 		return fmt.Errorf("the store file does not open again: %v", err)
 	}
 	defer in.Close()
-	if in.RootID != "inst" {
-		return fmt.Errorf("instance root is %q after restart, was \"inst\"", in.RootID)
-	}
 	if r.ready {
-		if r.root != in.RootID {
-			return fmt.Errorf("root id %q before the crash, %q after", r.root, in.RootID)
+		if r.root != "inst" {
+			return fmt.Errorf("root id reported at start-up is %q, configured \"inst\"", r.root)
 		}
 		req, _ := http.NewRequest("GET", "/", nil)
 		req.Header.Set("Authorization", "Bearer "+r.token)
@@ -315,10 +325,17 @@ func verify(h *history, dir string, r runResult) error {
 	if k >= 0 {
 		base = h.after[k]
 	} else {
-		base = &state{edges: map[string]*medge{}, nodes: map[string]model.PointSet{}}
+		base = &state{edges: map[string]*medge{}, nodes: map[string]model.PointSet{}, root: "inst"}
 	}
 	if k+1 < len(h.batches) {
 		next = h.after[k+1]
+	}
+	if base.root == "" {
+		base.root = "inst"
+	}
+	okRoot := in.RootID == base.root || (next != nil && in.RootID == next.root)
+	if !okRoot {
+		return fmt.Errorf("instance root is %q after restart; last acknowledged state has root %q", in.RootID, base.root)
 	}
 	var extra [][2]string
 	last := base
@@ -332,6 +349,20 @@ func verify(h *history, dir string, r runResult) error {
 	if err != nil {
 		return fmt.Errorf("recovered instance cannot be read: %v", err)
 	}
+	for _, e := range d {
+		if e.Parent == "root" && e.ID == "r1" && in.RootID != "r1" {
+			return fmt.Errorf("the new root's edge root>r1 exists but the instance root is still %q: edge row and root id are out of step", in.RootID)
+		}
+	}
+	if in.RootID == "r1" {
+		found := false
+		for _, e := range d {
+			found = found || (e.Parent == "root" && e.ID == "r1")
+		}
+		if !found {
+			return fmt.Errorf("the instance root is r1 but its edge does not exist")
+		}
+	}
 	if s := model.CheckHashes(d); s != "" {
 		return fmt.Errorf("points and hashes are out of step after recovery:\n%s%s", s, fix.DumpString(d))
 	}
@@ -340,7 +371,7 @@ func verify(h *history, dir string, r runResult) error {
 		for _, e := range d {
 			me := st.edges[e.Key()]
 			if me == nil {
-				if strings.HasPrefix(e.ID, "n") && len(e.ID) <= 3 {
+				if (strings.HasPrefix(e.ID, "n") && len(e.ID) <= 3) || e.ID == "r1" {
 					return "edge " + e.Key() + " exists but is not in the expected state"
 				}
 				continue // root, admin user
@@ -381,6 +412,34 @@ func verify(h *history, dir string, r runResult) error {
 			inflight = h.desc[k+1]
 		}
 		return fmt.Errorf("after recovery (last acknowledged batch %d, in flight: %s): %s\n%s", k, inflight, why, fix.DumpString(d))
+	}
+	// a client that got no acknowledgement sends the batch again: afterwards it must be
+	// there completely (this also exposes a half-applied batch whose visible part looked
+	// like "not at all")
+	if next != nil {
+		b := h.batches[k+1]
+		var pts data.Points
+		for _, p := range b.Points {
+			pts = append(pts, data.Point{Type: p.Type, Key: p.Key, Text: p.Text, Origin: p.Origin, Time: time.Unix(0, p.TimeNs), Value: p.Value, Tombstone: p.Tombstone, Data: p.Data})
+		}
+		rep, err := fix.Write(in.NC, b.Subject, pts)
+		if err != nil || rep != "" {
+			return fmt.Errorf("re-sending the in-flight batch (%s) after recovery: %q %v", h.desc[k+1], rep, err)
+		}
+		d, err = fix.Dump(in.NC, extra)
+		if err != nil {
+			return fmt.Errorf("read after re-sending the in-flight batch: %v", err)
+		}
+		if why := match(next); why != "" {
+			return fmt.Errorf("after recovery and re-sending the in-flight batch (%s) the content is still not complete: %s\n%s", h.desc[k+1], why, fix.DumpString(d))
+		}
+		if s := model.CheckHashes(d); s != "" {
+			return fmt.Errorf("hashes out of step after re-sending the in-flight batch (%s):\n%s", h.desc[k+1], s)
+		}
+		roots, err := in.Get("root", "all", false)
+		if err != nil || len(roots) != 1 || roots[0].ID != next.root {
+			return fmt.Errorf("after re-sending the in-flight batch (%s) the instance root is %v (%v), expected %q", h.desc[k+1], roots, err, next.root)
+		}
 	}
 	// the instance keeps working
 	if rep, err := in.NodePoints("inst", data.Points{{Type: "afterCrash", Value: 1, Time: time.Now()}}); err != nil || rep != "" {
@@ -424,8 +483,27 @@ func TestPropCrashAnywhere(t *testing.T) {
 			for i := 0; i < 4; i++ {
 				kills = append(kills, rapid.IntRange(1, readyAt).Draw(t, "killDuringInit"))
 			}
-			for i := 0; i < 16; i++ {
+			for i := 0; i < 10; i++ {
 				kills = append(kills, rapid.IntRange(readyAt+1, W).Draw(t, "killDuringHistory"))
+			}
+			// the last I/O calls before an acknowledgement: where a write that is split
+			// into "committed" and "still to do" parts would be caught in between
+			for i := 0; i < 3; i++ {
+				k := rapid.IntRange(0, len(h.batches)-1).Draw(t, "killBeforeAckOf")
+				at := dry.outAt[k+2]
+				for j := 0; j < 3; j++ {
+					if at-j > readyAt {
+						kills = append(kills, at-j)
+					}
+				}
+			}
+			// and every call of a root replacement, if the history has one
+			for k, d := range h.desc {
+				if d == "new root r1" {
+					for n := dry.outAt[k+1] + 1; n <= dry.outAt[k+2]; n++ {
+						kills = append(kills, n)
+					}
+				}
 			}
 		}
 		inside := 0
